@@ -32,6 +32,200 @@ func rulesC16(c *Ctx, r *Report) {
 	rulesMapOrderFn(c, r, c.role("regions.keys"), "regions active-set keys")
 	rulesSortCmp(c, r)
 	rulesGrdPkg(c, r, []string{"regions"}, 10)
+	rulesLenMismatchPanics(c, r)
+	rulesSweep(c, r)
+}
+
+// rulesSweep: (SNAPSHOT) every piece of the index stores a fresh key list of the active set taken at that
+// breakpoint; (COORD) coordinates are only ever compared with coordinates, never with a constant: no
+// position value is special.
+func rulesSweep(c *Ctx, r *Report) {
+	f := c.fn("regions", "NewIndex")
+	where := "regions.NewIndex"
+	keys := c.role("regions.keys")
+	if f == nil || len(f.Params) != 2 || keys == nil {
+		r.undecided("SNAPSHOT", where, "anchor", "", "NewIndex(starts, ends) or the key-list helper not found")
+		return
+	}
+	nSnap := 0
+	instrs(f, func(in ssa.Instruction) {
+		st, ok := in.(*ssa.Store)
+		if !ok {
+			return
+		}
+		fa, ok := st.Addr.(*ssa.FieldAddr)
+		if !ok {
+			return
+		}
+		sl, ok := st.Val.Type().Underlying().(*types.Slice)
+		if !ok || !types.Identical(sl.Elem(), types.Typ[types.Int]) {
+			return
+		}
+		if k, isC := st.Val.(*ssa.Const); isC && k.IsNil() {
+			// a nil placeholder that a later store into the same field replaces
+			replaced := false
+			for _, ref := range *fa.X.Referrers() {
+				if fa2, ok := ref.(*ssa.FieldAddr); ok && fa2.Field == fa.Field {
+					for _, r2 := range *fa2.Referrers() {
+						if st2, ok := r2.(*ssa.Store); ok && st2 != st && st2.Addr == ssa.Value(fa2) && instrDominates(st, st2) {
+							replaced = true
+						}
+					}
+				}
+			}
+			if replaced {
+				return
+			}
+		}
+		nSnap++
+		call, _ := st.Val.(*ssa.Call)
+		okCall := call != nil && call.Call.StaticCallee() == keys && len(call.Call.Args) == 1
+		if okCall {
+			_, okCall = call.Call.Args[0].(*ssa.MakeMap)
+		}
+		r.check(okCall, "SNAPSHOT", where, "piece key list", c.pos(st.Pos()),
+			"the piece's index list is the result of "+fname(keys)+" on the active-set map, taken at this breakpoint",
+			"the piece's index list is not a fresh key list of the active set taken at this breakpoint (it is "+newSymb(f).expr(st.Val).String()+"): a piece can report the set of another position")
+	})
+	r.floor("SNAPSHOT", nSnap, 2, "pieces built in NewIndex (at each breakpoint and after the last event)")
+	// COORD
+	type fld struct {
+		t types.Type
+		k int
+	}
+	coordField := map[fld]bool{}
+	coord := map[ssa.Value]bool{}
+	structOf := func(t types.Type) types.Type {
+		if p, ok := t.Underlying().(*types.Pointer); ok {
+			return p.Elem()
+		}
+		return t
+	}
+	for changed := true; changed; {
+		changed = false
+		mark := func(v ssa.Value) {
+			if !coord[v] {
+				coord[v] = true
+				changed = true
+			}
+		}
+		instrs(f, func(in ssa.Instruction) {
+			switch x := in.(type) {
+			case *ssa.UnOp:
+				if x.Op != token.MUL {
+					return
+				}
+				switch a := x.X.(type) {
+				case *ssa.IndexAddr:
+					if a.X == ssa.Value(f.Params[0]) || a.X == ssa.Value(f.Params[1]) {
+						mark(x)
+					}
+				case *ssa.FieldAddr:
+					if coordField[fld{structOf(a.X.Type()), a.Field}] {
+						mark(x)
+					}
+				case *ssa.Alloc:
+					for _, ref := range *a.Referrers() {
+						if st, ok := ref.(*ssa.Store); ok && st.Addr == ssa.Value(a) && coord[st.Val] {
+							mark(x)
+						}
+					}
+				}
+			case *ssa.Field:
+				if coordField[fld{x.X.Type(), x.Field}] {
+					mark(x)
+				}
+			case *ssa.Phi:
+				for _, e := range x.Edges {
+					if coord[e] {
+						mark(x)
+					}
+				}
+			case *ssa.Store:
+				if fa, ok := x.Addr.(*ssa.FieldAddr); ok && coord[x.Val] {
+					k := fld{structOf(fa.X.Type()), fa.Field}
+					if !coordField[k] {
+						coordField[k] = true
+						changed = true
+					}
+				}
+			}
+		})
+	}
+	nCmp := 0
+	var bad []string
+	s := newSymb(f)
+	instrs(f, func(in ssa.Instruction) {
+		bo, ok := in.(*ssa.BinOp)
+		if !ok {
+			return
+		}
+		switch bo.Op {
+		case token.EQL, token.NEQ, token.LSS, token.LEQ, token.GTR, token.GEQ:
+		default:
+			if coord[bo.X] || coord[bo.Y] {
+				bad = append(bad, "arithmetic "+s.expr(bo).String()+" at "+c.pos(bo.Pos()))
+			}
+			return
+		}
+		if !coord[bo.X] && !coord[bo.Y] {
+			return
+		}
+		nCmp++
+		_, cx := bo.X.(*ssa.Const)
+		_, cy := bo.Y.(*ssa.Const)
+		if cx || cy {
+			bad = append(bad, s.expr(bo).String()+" at "+c.pos(bo.Pos()))
+		}
+	})
+	r.check(len(bad) == 0, "COORD", where, "coordinates compared with coordinates only", c.pos(f.Pos()),
+		fmt.Sprintf("all %d comparisons on coordinate values (elements of starts/ends and what is derived from them through %d struct fields) are between two coordinates; no arithmetic on coordinates: no position value is treated specially", nCmp, len(coordField)),
+		"a coordinate is compared with a constant or used in arithmetic ("+strings.Join(bad, "; ")+"): that position value behaves differently from all others (e.g. a sentinel that is also a legal coordinate)")
+	r.floor("COORD", nCmp, 2, "coordinate comparisons in NewIndex (starts[i] >= ends[i], e.pos != pos)")
+}
+
+// rulesLenMismatchPanics (LEN-PANIC): NewIndex compares len(starts) with len(ends), panics on the unequal
+// edge, and no return is reachable without passing that comparison.
+func rulesLenMismatchPanics(c *Ctx, r *Report) {
+	f := c.fn("regions", "NewIndex")
+	where := "regions.NewIndex"
+	if f == nil || len(f.Params) != 2 {
+		r.undecided("LEN-PANIC", where, "anchor", "", "NewIndex(starts, ends) not found")
+		return
+	}
+	s := newSymb(f)
+	var guard *ssa.BasicBlock
+	for _, b := range f.Blocks {
+		iff, ok := lastInstr(b).(*ssa.If)
+		if !ok {
+			continue
+		}
+		bo, ok := iff.Cond.(*ssa.BinOp)
+		if !ok || (bo.Op != token.NEQ && bo.Op != token.EQL) {
+			continue
+		}
+		l, rr := s.expr(bo.X).String(), s.expr(bo.Y).String()
+		if !(l == "builtin:len(P0)" && rr == "builtin:len(P1)" || l == "builtin:len(P1)" && rr == "builtin:len(P0)") {
+			continue
+		}
+		bad := b.Succs[0]
+		if bo.Op == token.EQL {
+			bad = b.Succs[1]
+		}
+		if blockAlwaysPanics(bad) {
+			guard = b
+		}
+	}
+	if !r.check(guard != nil, "LEN-PANIC", where, "guard", c.pos(f.Pos()), "`len(starts) != len(ends)` leads to a panic", "no `len(starts) != len(ends)` comparison whose unequal edge always panics") {
+		return
+	}
+	var early []string
+	for _, rt := range returnsNotBehind(f, guard) {
+		early = append(early, c.pos(rt.Pos()))
+	}
+	r.check(len(early) == 0, "LEN-PANIC", where, "guard before every return", c.pos(f.Pos()),
+		"every return lies behind the length comparison: lists of different lengths always panic",
+		fmt.Sprintf("return(s) at %v are reachable without passing the length comparison: some lists of different lengths are accepted", early))
 }
 
 // rulesStartEnd: every append of an event is dominated by the fact starts[i] < ends[i].
